@@ -42,6 +42,7 @@ deriving Repr, DecidableEq
 def encode (m : Msg) (buf : Bytes) : Except Err EncRes :=
   if !validateMID m.mid then .error .badMID
   else if !validateType m.typ then .error .badType
+  else if m.code > 255 then .error .badCode                   -- `codes.Code` is a uint16, the header has one byte
   else
     match size m with
     | .error e => .error e
